@@ -44,6 +44,10 @@ class AbsFlat:
             raise RuntimeError("start + length exceeds dimension size")
         return AbsFlat(self.off + start, length, self.copied)
 
+    def narrow_copy(self, dim, start, length):
+        v = self.narrow(dim, start, length)
+        return AbsFlat(v.off, v.length, True)
+
     def view(self, *shape):
         if len(shape) == 1 and not isinstance(shape[0], (int, SymInt)):
             shape = tuple(shape[0])
